@@ -9,7 +9,6 @@
 package main
 
 import (
-	"reflect"
 	"sort"
 	"time"
 
@@ -158,8 +157,6 @@ func hasRow(t *ot.Target, m string) bool {
 	}
 	return false
 }
-
-var _ = reflect.TypeOf
 
 func main() {
 	engine.Main(engine.Check{
